@@ -38,4 +38,18 @@ def stepOld (s : State) : Label → State
 
 def execOld (s : State) (sched : List Label) : State := sched.foldl stepOld s
 
+/-- A run loop whose `join_next` arm UNWINDS on a panicked accept task
+(`std::panic::resume_unwind(outer.into_panic())` instead of `break`): the run task ends at once,
+without `protocols.shutdown()` / `endpoint.close()`; its join handle is ready (with `Err`), so the
+caller that joins it returns, and every later caller finds the slot empty.  Not the code as it
+is — kept to show why the arm must `break` (a seeded mutation of exactly this shape). -/
+def stepUnwind (s : State) : Label → State
+  | .panic _ => if s.run = .running then { s with run := .aborted } else s
+  | .join i =>
+    if s.callers i = .joining ∧ (s.run = .exited ∨ s.run = .aborted) then
+      { s with slot := false, lockHolder := none, callers := upd s.callers i .returned } else s
+  | l => step s l
+
+def execUnwind (s : State) (sched : List Label) : State := sched.foldl stepUnwind s
+
 end IrohModel.C41
